@@ -273,12 +273,47 @@ def _shape_checks(S):
               "owner._save_funcs[self.lump] = getattr(owner, '_lmp_write_' + func_suffix)"]:
         if s not in sn:
             raise ExtractError(f'ParsedLump.__set_name__: expected fragment not found: {s}')
-    sv = ast.unparse(S.funcs['save'])
-    for s in ['for lump_or_game in LUMP_REBUILD_ORDER', 'self._parsed_lumps.pop(lump_or_game)',
-              'self._save_funcs[lump_or_game](self, data)', 'self.lumps[lump_or_game].data = result',
-              'self.game_lumps[lump_or_game].data = result', 'for lump_name in LUMP_WRITE_ORDER']:
-        if s not in sv:
-            raise ExtractError(f'BSP.save: expected fragment not found: {s}')
+    return _save_loop_shape(S)
+
+
+def _save_loop_shape(S):
+    """The rebuild loop of BSP.save: the `for` whose body pops its loop variable from `self._parsed_lumps`.
+    Returns False when it walks LUMP_REBUILD_ORDER itself (popping from the live cache), True when it walks a
+    list computed beforehand from LUMP_REBUILD_ORDER and the cache (a snapshot of the cached views)."""
+    fn = S.funcs.get('save')
+    if fn is None:
+        raise ExtractError('BSP.save not found')
+    loops = []
+    for node in ast.walk(fn):
+        if isinstance(node, ast.For) and isinstance(node.target, ast.Name):
+            var = node.target.id
+            for c in ast.walk(node):
+                if isinstance(c, ast.Call) and ast.unparse(c.func) == 'self._parsed_lumps.pop' and c.args \
+                        and ast.unparse(c.args[0]) == var:
+                    loops.append(node)
+                    break
+    if len(loops) != 1:
+        raise ExtractError(f'BSP.save: expected exactly one loop popping its variable from self._parsed_lumps, found {len(loops)}')
+    loop = loops[0]
+    var = loop.target.id
+    body = ast.unparse(loop)
+    for frag in (f'self._save_funcs[{var}](self, data)', f'self.lumps[{var}].data = result', f'self.game_lumps[{var}].data = result'):
+        if frag not in body:
+            raise ExtractError(f'BSP.save: expected fragment not found in the rebuild loop: {frag}')
+    if 'for lump_name in LUMP_WRITE_ORDER' not in ast.unparse(fn):
+        raise ExtractError('BSP.save: the lump bodies are no longer written in LUMP_WRITE_ORDER')
+    it = loop.iter
+    if isinstance(it, ast.Name) and it.id == 'LUMP_REBUILD_ORDER':
+        return False
+    if isinstance(it, ast.Name):
+        # a local computed before the loop from the order and the cache
+        for node in ast.walk(fn):
+            if isinstance(node, ast.Assign) and any(isinstance(t, ast.Name) and t.id == it.id for t in node.targets) \
+                    and node.lineno < loop.lineno:
+                src = ast.unparse(node.value)
+                if 'LUMP_REBUILD_ORDER' in src and 'self._parsed_lumps' in src:
+                    return True
+    raise ExtractError(f'BSP.save: the rebuild loop iterates over {ast.unparse(it)!r}: not understood')
 
 
 def extract_c10(S):
@@ -299,7 +334,7 @@ def extract_c10(S):
         recs.append(rec)
     order = _order(S, 'LUMP_REBUILD_ORDER')
     worder = _write_order(S)
-    _shape_checks(S)
+    snapshot = _shape_checks(S)
     out = []
     for rec in recs:
         r, w = rec['read'], rec['write']
@@ -321,7 +356,7 @@ def extract_c10(S):
             'popkeys': [k for (_, k) in r.pops],
             'hdr_stores': [(l, f, 0) for (l, f) in r.hdr_stores] + [(l, f, 1) for (l, f) in w.hdr_stores],
         })
-    return {'views': out, 'order': order, 'write_order': worder}
+    return {'views': out, 'order': order, 'write_order': worder, 'snapshot': snapshot}
 
 
 def _nl(xs):
@@ -348,6 +383,7 @@ def section_c10(S):
     L.append(',\n'.join(rows) + ' ]')
     L.append('  order := ' + _nl(d['order']))
     L.append('  writeOrder := ' + _nl(d['write_order']))
+    L.append('  snapshot := ' + ('true' if d['snapshot'] else 'false'))
     L.append('  lumpNames := [' + ', '.join(f'({i}, {lean_string(S.lump_name(i))})' for i in sorted(used)) + ']')
     L.append('')
     L.append('/-- raw lumps assigned inside a *reader* (must be lumps the view clears anyway): (view, lump). -/')
